@@ -4,7 +4,8 @@ import json, os, subprocess
 
 VERIF = os.path.dirname(os.path.dirname(os.path.abspath(__file__)))
 
-IMPLEMENTED = os.environ.get("IMPLEMENTED", "C01 C02 C03 C04 C05 C06 C07 C08 C09 C10 C14 C15 C16 C17 C18").split()
+import re
+IMPLEMENTED = sorted(set(re.findall(r'"(C\d\d)"', open(os.path.join(VERIF, "harness/vlib/src/props/mod.rs")).read())))
 
 T_MODEL = "generated inputs (bounded-exhaustive class-alphabet enumeration, 256-value byte sweeps, lane-phase families, proptest-driven grammar generation with mutations and shrinking) compared with an independent executable reference model"
 T_META = "generated inputs (proptest-driven grammar generation with mutations and shrinking, bounded-exhaustive enumeration) judged by a metamorphic / differential relation between runs of the real parser"
